@@ -23,7 +23,7 @@ package parser
 //                      immediate predecessor of bp), i.e. l > rbp <==> l >= bp
 
 //@ func binaryL
-//@   props C08
+//@   props C08 C10
 //@   modifies p.idx
 //@   requires p != nil && t != nil && lhs != nil
 //@   at call expr: assert #left-assoc same(arg1, bp)
@@ -32,7 +32,7 @@ package parser
 //@   ensures #span result.(*ast.BinaryExpr).Pos == pos.Range(lhs, result.(*ast.BinaryExpr).RHS)
 
 //@ func binaryN
-//@   props C08
+//@   props C08 C10
 //@   modifies p.idx
 //@   requires p != nil && t != nil && lhs != nil
 //@   at call expr: assert #non-assoc same(arg1, bp)
@@ -41,7 +41,7 @@ package parser
 //@   ensures #span result.(*ast.BinaryExpr).Pos == pos.Range(lhs, result.(*ast.BinaryExpr).RHS)
 
 //@ func binaryR
-//@   props C08
+//@   props C08 C10
 //@   modifies p.idx
 //@   requires p != nil && t != nil && lhs != nil
 //@   requires #finite bp == bp && bp - bp == 0
@@ -51,7 +51,7 @@ package parser
 //@   ensures #span result.(*ast.BinaryExpr).Pos == pos.Range(lhs, result.(*ast.BinaryExpr).RHS)
 
 //@ func unaryPrefix
-//@   props C08
+//@   props C08 C10
 //@   modifies p.idx
 //@   requires p != nil && t != nil
 //@   at call expr: assert #operand-power same(arg1, bp)
@@ -60,7 +60,7 @@ package parser
 //@   ensures #span result.(*ast.UnaryExpr).Pos == pos.Range(t, result.(*ast.UnaryExpr).LHS)
 
 //@ func unaryPostfix
-//@   props C08
+//@   props C08 C10
 //@   requires p != nil && t != nil && lhs != nil
 //@   ensures #node typeis(result, *ast.UnaryExpr) && !result.(*ast.UnaryExpr).Prefix && result.(*ast.UnaryExpr).LHS == lhs
 //@   ensures #name result.(*ast.UnaryExpr).IdentExpr != nil && result.(*ast.UnaryExpr).IdentExpr.Name == t.Lexeme
@@ -77,7 +77,7 @@ package parser
 
 // ?: is right associative: the else-branch admits operators with lbp >= bp
 //@ func parseQuestion
-//@   props C08
+//@   props C08 C10
 //@   modifies p.idx
 //@   requires p != nil && t != nil && l != nil
 //@   requires #finite bp == bp && bp - bp == 0
